@@ -412,6 +412,7 @@ BODY_VARIANTS = {
     "null": ({"application/json": {"schema": dict(OBJ, nullable=True), "example": None}}, [("application/json", None)]),
     "named-null": ({"application/json": {"schema": dict(OBJ, nullable=True), "examples": {"cleared": {"value": None}, "set": {"value": {"count": 1, "name": "n"}}}}}, [("application/json", None), ("application/json", {"count": 1, "name": "n"})]),
     "named-falsy": ({"application/json": {"schema": {}, "examples": {"a": {"value": 0}, "b": {"value": ""}, "c": {"value": []}, "d": {"value": False}}}}, [("application/json", 0), ("application/json", ""), ("application/json", []), ("application/json", False)]),
+    "same-value-two-media-types": ({"application/json": {"schema": {"type": "string"}, "example": "same"}, "text/plain": {"schema": {"type": "string"}, "example": "same"}}, [("application/json", "same"), ("text/plain", "same")]),
     "zero": ({"application/json": {"schema": {"oneOf": [OBJ, {"type": "integer"}]}, "example": 0}}, [("application/json", 0)]),
     "false": ({"application/json": {"schema": {"oneOf": [OBJ, {"type": "boolean"}]}, "example": False}}, [("application/json", False)]),
     "empty-object": ({"application/json": {"schema": {"type": "object", "properties": {"name": {"type": "string", "minLength": 3}}}, "example": {}}}, [("application/json", {})]),
@@ -426,7 +427,11 @@ def special_case(draw):
     bv = draw(st.sampled_from(sorted(BODY_VARIANTS)))
     if pv == "none" and bv == "none":
         bv = "null"
-    return {"param": pv, "body": bv, "other_param_example": draw(st.booleans()), "workers": draw(st.sampled_from([1, 2]))}
+    if draw(st.integers(0, 7)) == 0:
+        # focus: nothing but the media type tells the two example requests apart
+        return {"param": "none", "body": "same-value-two-media-types", "other_param_example": False, "workers": draw(st.sampled_from([1, 2])), "unique_inputs": True}
+    # with unique inputs only a request that was already sent may be left out: the same value under another media type is another request
+    return {"param": pv, "body": bv, "other_param_example": draw(st.booleans()), "workers": draw(st.sampled_from([1, 2])), "unique_inputs": draw(st.booleans())}
 
 
 def _strict_equal(a, b) -> bool:
@@ -453,7 +458,7 @@ def check_special(ctx: Ctx, inp) -> None:
         op["requestBody"] = {"required": True, "content": copy.deepcopy(content)}
     doc = {"openapi": "3.0.2", "info": {"title": "t", "version": "1"}, "paths": {"/t": {"post": op}}}
     server = loopback.shared()
-    record = engine_run.run_engine(doc, {"phases": ["examples"], "seed": 1, "checks": [], "max_examples": 5, "workers": inp["workers"]}, server)
+    record = engine_run.run_engine(doc, {"phases": ["examples"], "seed": 1, "checks": [], "max_examples": 5, "workers": inp["workers"], "unique_inputs": inp.get("unique_inputs", False)}, server)
     ctx.case(nontrivial=inp, classes=[f"param={inp['param']}", f"body={inp['body']}"], sample={"input": inp, "requests": [r.as_json() for r in record.requests[:4]]})
     if record.exception:
         ctx.disagree("special:engine-exception:" + record.exception.split(":")[0], f"engine run raised {record.exception}", input=inp)
